@@ -106,13 +106,15 @@ def _map(ctx, m):
         ctx.error('C17.D1', str(e))
 
 
-def _api(ctx, m):
+def _api(ctx, m, rule='C17.D2', only=None):
     sites = 0
     for modname, fname in (('zincparser', '_parse_datetime'), ('jsonparser', 'parse_embedded_scalar'), ('grid_filter', '_parse_datetime')):
+        if only and modname not in only:
+            continue
         try:
             fn = m.func(modname, fname)
         except AnalysisError as e:
-            ctx.error('C17.D2', str(e))
+            ctx.error(rule, str(e))
             continue
         F = 'hszinc/%s.py' % modname
         conv = [n for n in ast.walk(fn) if isinstance(n, ast.Call) and isinstance(n.func, ast.Attribute)
@@ -120,10 +122,10 @@ def _api(ctx, m):
         for c in conv:
             sites += 1
             if c.func.attr == 'astimezone':
-                ctx.ob('C17.D2', '%s.%s converts the aware stamp with astimezone (instant preserved)' % (modname, fname), True,
+                ctx.ob(rule, '%s.%s converts the aware stamp with astimezone (instant preserved)' % (modname, fname), True,
                        '%s:%d' % (F, c.lineno))
             elif c.func.attr == 'replace' and any(k.arg == 'tzinfo' for k in c.keywords):
-                ctx.violation('C17.D2', '%s::%s' % (F, fname), norm(c),
+                ctx.violation(rule, '%s::%s' % (F, fname), norm(c),
                               '2021-07-01T12:00:00+02:00 Paris read in winter-offset zones: replace(tzinfo=...) keeps the wall '
                               'clock and changes the instant', 'the reader attaches the zone with replace(tzinfo=) instead of '
                               'converting the instant', file=F, line=c.lineno, engine='E9')
@@ -136,17 +138,19 @@ def _api(ctx, m):
                         guarded = True
                     p = getattr(p, '_parent', None)
                 if guarded:
-                    ctx.ob('C17.D2', '%s.%s: localize only on the (unreachable) naive-stamp branch' % (modname, fname), True,
+                    ctx.ob(rule, '%s.%s: localize only on the (unreachable) naive-stamp branch' % (modname, fname), True,
                            '%s:%d' % (F, c.lineno))
                 else:
-                    ctx.violation('C17.D2', '%s::%s' % (F, fname), norm(c), 'an aware stamp is re-interpreted as wall time',
+                    ctx.violation(rule, '%s::%s' % (F, fname), norm(c), 'an aware stamp is re-interpreted as wall time',
                                   'localize() applied outside the naive-stamp branch', file=F, line=c.lineno, engine='E9')
-    ctx.floor('reader conversion sites', sites, 3)
+    ctx.floor('reader conversion sites', sites, 3 if not only else 1)
     for modname in ('zincdumper', 'jsondumper'):
+        if only and modname not in only:
+            continue
         try:
             fn = m.func(modname, 'dump_date_time')
         except AnalysisError as e:
-            ctx.error('C17.D2', str(e))
+            ctx.error(rule, str(e))
             continue
         F = 'hszinc/%s.py' % modname
         a = fn.args.args[0].arg
@@ -156,10 +160,10 @@ def _api(ctx, m):
         okret = any('%s.isoformat()' % a in r and 'tz_name' in r for r in rets)
         tzn = [norm(n) for n in ast.walk(fn) if isinstance(n, ast.Call) and norm(n.func) == 'timezone_name']
         if not bad and okret and tzn and tzn[0].startswith('timezone_name(%s' % a):
-            ctx.ob('C17.D2', '%s.dump_date_time emits isoformat() of the value itself plus timezone_name(value)' % modname,
+            ctx.ob(rule, '%s.dump_date_time emits isoformat() of the value itself plus timezone_name(value)' % modname,
                    True, '%s:%d' % (F, fn.lineno))
         else:
-            ctx.violation('C17.D2', '%s::dump_date_time' % F, '; '.join(rets),
+            ctx.violation(rule, '%s::dump_date_time' % F, '; '.join(rets),
                           'the written stamp denotes another instant/offset than the value (or lacks its zone name)',
                           'dump_date_time converts the value or does not emit isoformat() + zone name', file=F,
                           line=fn.lineno, engine='E9')
